@@ -18,6 +18,12 @@
 (*                                                                         *)
 (* A datagram m is a record                                                *)
 (*   rtps   : BOOLEAN   governance requires RTPS message protection        *)
+(*   disc   : "N" | "S" | "E"  discovery_protection_kind of the domain     *)
+(*            rule (NONE / SIGN / ENCRYPT): the submessage protection of   *)
+(*            the builtin secure discovery endpoints psec, pubsec, subsec  *)
+(*   live   : "N" | "S" | "E"  liveliness_protection_kind of the domain    *)
+(*            rule: the submessage protection of pmsec                     *)
+(*            (DCPSParticipantMessageSecure)           (DDS Security 7.4.8)*)
 (*   first  : "srtps" (the datagram is a valid SecureRTPSPrefix-protected  *)
 (*            message of the peer), "plain", "srtps_bad" (protected message*)
 (*            with a corrupted MAC), "shift" (SRTPS prefix not first)      *)
@@ -31,10 +37,11 @@
 (*            per participant only, so a writer submessage that names no   *)
 (*            reader (readerId UNKNOWN) has SEVERAL candidate readers, on  *)
 (*            topics with different protection requirements.               *)
-(*   wraps  : sequence of [id,kind,dst,wr,pay,key]: submessages that were  *)
+(*   wraps  : sequence of [id,kind,dst,wr,pay,form,key]: submessages that  *)
+(*            were                                                         *)
 (*            protected by the peer with the endpoint keys of topic `key`  *)
 (*            (+ opaque: the body is a SecureBody, FALSE for SIGN kinds)   *)
-(*   els    : the wire positions, records [t,id,kind,dst,wr,pay,w,who]     *)
+(*   els    : the wire positions, records [t,id,kind,dst,wr,pay,form,w,who]*)
 (*            t = "ent"  plain entity submessage                           *)
 (*                "P"/"B"/"F" SecurePrefix/body/SecurePostfix of wraps[w]  *)
 (*                "idst","isrc","its" interpreter submessages              *)
@@ -43,12 +50,29 @@
 (* "UNKNOWN", wr = the sending writer's topic) and ACK (dst = a local      *)
 (* writer, wr = the sending reader's topic).  pay: "plain","enc" (payload  *)
 (* protected with the keys of topic wr), "encx" (other keys), "na".        *)
+(* form: the SHAPE of a DATA / DATAFRAG submessage (flags D, K, Q):        *)
+(*   "D"  serialized data (a sample)                                       *)
+(*   "K"  serialized KEY instead of data (dispose / unregister), DATA and  *)
+(*        DATAFRAG                                                         *)
+(*   "Q"  no serialized payload at all: the instance is named by the key   *)
+(*        hash in the inline QoS (dispose by key hash); pay = "na"         *)
+(*   "DK" both flags (invalid, RTPS 9.4.5.3.1), "0" neither flag, no       *)
+(*        inline QoS (no content); "na" for the other kinds.               *)
+(* Payload protection is about the SerializedPayload submessage element,   *)
+(* whatever it serializes: forms D, K, DK carry one, Q and 0 do not.       *)
 (***************************************************************************)
 EXTENDS Integers, Sequences, FiniteSets
 
-Dests   == {"NN", "EN", "NE", "EE", "SN", "NS", "spdp", "stateless", "volatile", "sedp"}
-\* governance documents fixtures/gate/governance_rtps*.p7s: topic T_<metadata><data>
-SubProt(d) == d \in {"EN", "EE", "SN", "volatile"}
+Dests   == {"NN", "EN", "NE", "EE", "SN", "NS", "spdp", "stateless", "volatile", "sedp",
+            "pmsec", "pubsec", "subsec", "psec"}
+\* governance documents fixtures/gate/governance_*.p7s: topic T_<metadata><data>; the builtin secure
+\* endpoints take their submessage protection from the DOMAIN rule (g: any record with fields disc, live):
+\* DCPSParticipantMessageSecure from liveliness_protection_kind, DCPSParticipantSecure /
+\* DCPSPublicationsSecure / DCPSSubscriptionsSecure from discovery_protection_kind (DDS Security 7.4.8)
+DiscDests == {"psec", "pubsec", "subsec"}
+SubProt(g, d) == \/ d \in {"EN", "EE", "SN", "volatile"}
+                 \/ d = "pmsec" /\ g.live # "N"
+                 \/ d \in DiscDests /\ g.disc # "N"
 PayProt(d) == d \in {"NE", "EE", "NS"}
 \* DDS Security 8.4.2.4 table 27: DCPSParticipant, DCPSParticipantStatelessMessage,
 \* DCPSParticipantVolatileMessageSecure are exempt from RTPS message protection
@@ -56,6 +80,8 @@ Exempt(d)  == d \in {"spdp", "stateless", "volatile"}
 
 WriterKinds == {"DATA", "FRAG", "HB", "GAP"}
 IsData(k)   == k \in {"DATA", "FRAG"}
+\* the submessage carries a SerializedPayload element (what payload protection protects)
+HasPayload(it) == IsData(it.kind) /\ it.form \in {"D", "K", "DK"}
 
 ToSet(s) == {s[i] : i \in DOMAIN s}
 
@@ -87,15 +113,15 @@ ItemOf(m, id)  == IF IsEnt(m, id)
                   ELSE m.wraps[CHOOSE w \in DOMAIN m.wraps : m.wraps[w].id = id]
 
 RtpsOk(m, d)    == m.rtps => (m.first = "srtps" \/ Exempt(d))
-SubOk(m, id, d) == SubProt(d) => \E w \in WrappedBy(m, id) : m.wraps[w].key = d
+SubOk(m, id, d) == SubProt(m, d) => \E w \in WrappedBy(m, id) : m.wraps[w].key = d
 PayOk(m, id, d) == LET it == ItemOf(m, id) IN
-                   (PayProt(d) /\ IsData(it.kind)) => (it.pay = "enc" /\ it.wr = d)
+                   (PayProt(d) /\ HasPayload(it)) => (it.pay = "enc" /\ it.wr = d)
 Allowed(m, id, d) == RtpsOk(m, d) /\ SubOk(m, id, d) /\ PayOk(m, id, d)
 
 (***************************************************************************)
 (* 3. MessageReceiver, per datagram (src/rtps/message_receiver.rs)         *)
 (***************************************************************************)
-NoEl == [t |-> "none", id |-> 0, kind |-> "na", dst |-> "na", wr |-> "na", pay |-> "na", w |-> 0, who |-> "na"]
+NoEl == [t |-> "none", id |-> 0, kind |-> "na", dst |-> "na", wr |-> "na", pay |-> "na", form |-> "na", w |-> 0, who |-> "na"]
 \* sec: "None" | "Prefix" | "Body"; pw: wrap of the stored prefix; pb: the stored submessage
 St0(m) == [sec |-> "None", pw |-> 0, pb |-> NoEl, dstOK |-> TRUE, src |-> m.src]
 SrcPeer(st) == st.src = "peer"                \* the source whose key material the plugins hold
@@ -105,7 +131,8 @@ Special(m) == m.rtps /\ m.first # "srtps"     \* must_be_rtps_protection_special
 Handle(m, st, d, it) ==
   IF ~st.dstOK \/ d \notin Dests THEN {}
   ELSE IF Special(m) /\ ~Exempt(d) THEN {}
-  ELSE IF IsData(it.kind) /\ PayProt(d) /\ ~(it.pay = "enc" /\ it.wr = d /\ SrcPeer(st)) THEN {}   \* decode_serialized_payload
+  ELSE IF HasPayload(it) /\ PayProt(d) /\ ~(it.pay = "enc" /\ it.wr = d /\ SrcPeer(st)) THEN {}   \* decode_serialized_payload
+  ELSE IF it.kind = "DATA" /\ it.form \in {"DK", "0"} THEN {}   \* Reader::data_to_dds_data: ambiguous / no contents
   ELSE {<<it.id, d>>}
 
 \* a plain entity submessage in state None (handle_submessage)
@@ -113,8 +140,8 @@ PlainEntity(m, st, it) ==
   IF it.kind \in WriterKinds
   THEN LET targets == IF it.dst = "UNKNOWN" THEN Cand(m, it.wr) ELSE {it.dst}
        \* the protection requirement is the one of EACH candidate reader
-       IN UNION {IF ~SubProt(d) THEN Handle(m, st, d, it) ELSE {} : d \in targets}
-  ELSE IF ~SubProt(it.dst) THEN Handle(m, st, it.dst, it) ELSE {}
+       IN UNION {IF ~SubProt(m, d) THEN Handle(m, st, d, it) ELSE {} : d \in targets}
+  ELSE IF ~SubProt(m, it.dst) THEN Handle(m, st, it.dst, it) ELSE {}
 
 \* handle_secure_submessage after a successful decode_submessage
 SecureEntity(m, st, it) ==
@@ -161,12 +188,15 @@ StBefore(m, i) == IF i = 1 THEN St0(m) ELSE RecvStep(m, StBefore(m, i - 1), m.el
 (*    is matched to reader d for <<d, w>> in m.xm; demanded only for       *)
 (*    readers that need no protection at all (no key material exists for   *)
 (*    that participant).                                                   *)
+(* A DATA / DATAFRAG counts as such traffic in the well-formed shapes: a   *)
+(* plain serialized sample or key (forms D, K) or a dispose by key hash    *)
+(* (form Q); the invalid shapes DK / 0 are not demanded.                   *)
 (***************************************************************************)
 FlowDests(m, e, st) ==
   IF st.src = "peer"
   THEN LET d == IF e.dst = "UNKNOWN" THEN e.wr ELSE e.dst IN
        IF /\ d \in Dests /\ e.wr = d
-          /\ ~SubProt(d)
+          /\ ~SubProt(m, d)
           /\ (IsData(e.kind) => ~PayProt(d))
           /\ (e.kind \in {"HB", "GAP"} => d # "stateless")
           /\ (e.kind = "ACK" => e.dst # "UNKNOWN")
@@ -174,7 +204,7 @@ FlowDests(m, e, st) ==
   ELSE IF st.src = "peer2" /\ e.kind \in WriterKinds
   THEN {d \in Dests \ {"stateless"} : /\ <<d, e.wr>> \in m.xm
                                        /\ e.dst \in {"UNKNOWN", d}
-                                       /\ ~SubProt(d) /\ ~PayProt(d)}
+                                       /\ ~SubProt(m, d) /\ ~PayProt(d)}
   ELSE {}
 
 MustFlow(m) ==
@@ -185,5 +215,6 @@ MustFlow(m) ==
                        st == StBefore(m, j)
                    IN /\ e.t = "ent"
                       /\ st.sec = "None" /\ st.dstOK
-                      /\ (IsData(e.kind) => e.pay = "plain")}}
+                      /\ (IsData(e.kind) => ((e.form \in {"D", "K"} /\ e.pay = "plain")
+                                              \/ (e.kind = "DATA" /\ e.form = "Q")))}}
 =============================================================================
